@@ -155,6 +155,33 @@ def run(tier: str, seed: int) -> int:
                         rep.violation(f"translate_address({src}, {natref}) in {net} = {got}, expected {natnet.network_address + off}",
                                       {"src": src, "nat": natref, "net": str(net)}, {"part": "translate", "bits": bits})
                     rep.distinct.add(("tr", bits, base, off))
+    # conversions along a history on ONE object: every ordered pair of prefix lengths, each set through either attribute, read back through both
+    hist = 0
+    for a in range(0, 33):
+        for b in range(0, 33):
+            if a == b:
+                continue
+            for set_a, set_b in (("bits", "bits"), ("bits", "mask"), ("mask", "bits"), ("mask", "mask")):
+                hist += 1
+                nc = VMNetconfig()
+                nc.net_ip = "0.0.0.0"  # (the prefix setter needs a network address; 0.0.0.0 is one for every prefix length)
+                ma = str(ipaddress.ip_network(f"0.0.0.0/{a}").netmask)
+                mb = str(ipaddress.ip_network(f"0.0.0.0/{b}").netmask)
+                if set_a == "bits":
+                    nc.mask_bit = str(a)
+                else:
+                    nc.netmask = ma
+                first = (str(nc.mask_bit), nc.netmask)
+                if set_b == "bits":
+                    nc.mask_bit = str(b)
+                else:
+                    nc.netmask = mb
+                second = (str(nc.mask_bit), nc.netmask)
+                if first != (str(a), ma) or second != (str(b), mb):
+                    rep.violation(f"prefix/netmask after setting /{a} (via {set_a}) then /{b} (via {set_b}): read {first} then {second}, expected {(str(a), ma)} then {(str(b), mb)}",
+                                  {"a": a, "b": b, "set": [set_a, set_b]}, {"part": "mask-history", "set": set_a + ">" + set_b})
+    cells += hist
+    rep.sections["mask_history_cells"] = hist
     rep.sections["arithmetic_cells"] = cells
     rep.sample({"translate": {"net": "10.200.7.16/28", "host": "10.200.7.21", "target": "10.1.3.128", "expected": "10.1.3.133"}})
 
